@@ -97,10 +97,11 @@ def classify(G, placement, seeded, kind="plain"):
             return "key-function" if a != c else "key-ignored"
         a = float(f(x))
         b = float(f(x))
+        if any(c in COMPILING for c in placement):
+            return "baked"          # a compiled construct returned a value although a site was inside (also when a map then
+                                    # replicates that baked draw over its lanes: same precedence as Lowering.outcome)
         if math.isnan(a):
             return "replicated"
-        if any(c in COMPILING for c in placement):
-            return "baked"          # a compiled construct returned a value although a site was inside
         return "fresh" if a != b else "fixed"
     except LoweringSamplePrimitiveToMLIRException:
         return "lowering-error"
